@@ -20,10 +20,10 @@ NE_IS_LE = sys.byteorder == 'little'
 def describe(tier):
     q = tier == 'quick'
     return dict(bounds=dict(int_lengths='1..17 + 24,31,32,33,63,64,65' + ('' if q else ' + 18..130, 255,256,257,1000'),
-                            values='all values for widths <= %d; above: 0, +-1, +-2, min, min+1, max, max-1, 2**k, 2**k-1 (byte multiples k), 0x55.., 0xAA..' % (8 if q else 11),
+                            values='all values for widths <= %d; above: 0, +-1, +-2, min, min+1, max, max-1, 2**k, 2**k-1 (byte multiples k), 0x55.., 0xAA..' % (8 if q else 13),
                             floats='all 65536 binary16 patterns; binary32/64: every exponent x mantissa in {0,1,all-ones,0101..} x sign; +-0, +-inf, nan, subnormals',
                             routes_create=[r[0] for r in CREATE], routes_read=[r[0] for r in READ], classes=list(CLASSES),
-                            patterns='every bit pattern of every valid width <= %d for each dtype: interpret then rebuild' % (10 if q else 12)),
+                            patterns='every bit pattern of every valid width <= %d for each dtype: interpret then rebuild' % (10 if q else 14)),
                 rule='each (dtype, length, value, route, class) executed once; every case is non-trivial (in-range values only; out-of-range is C15)',
                 assumptions=['int arithmetic, format() and struct.pack are the definition of the canonical encodings',
                              'native-endian expectations derived from sys.byteorder (only little-endian can be run here)'])
@@ -213,9 +213,9 @@ def _run_shard(shard, acc):
             sp = SPECS[shard['dtype']]
             n = shard['n']
             if sp.kind in ('uint', 'int'):
-                vals = int_values(sp.kind, n, 8 if q else 11)
+                vals = int_values(sp.kind, n, 8 if q else 13)
             else:
-                base = int_values('uint', n, 7 if q else 9) if n else [0]
+                base = int_values('uint', n, 7 if q else 11) if n else [0]
                 if sp.kind == 'hex':
                     vals = [format(v, f'0{n // 4}x') for v in base]
                 elif sp.kind == 'oct':
@@ -229,11 +229,11 @@ def _run_shard(shard, acc):
             vals = float_values(shard['n'])
             for i, v in enumerate(vals):
                 if i % shard['parts'] == shard['part']:
-                    one_value(bs, acc, sp, shard['n'], v, full=(i % (97 if q else 13) == 0))
+                    one_value(bs, acc, sp, shard['n'], v, full=(i % (97 if q else 5) == 0))
         elif k == 'misc':
             misc(bs, acc)
         else:
-            patterns(bs, acc, SPECS[shard['dtype']], 10 if q else 12)
+            patterns(bs, acc, SPECS[shard['dtype']], 10 if q else 14)
 
 
 def veq(a, b):
